@@ -2,6 +2,7 @@ import HpxVerif.Lemmas.BmocAnd
 import HpxVerif.Lemmas.BmocEnc
 import HpxVerif.Lemmas.BmocNot
 import HpxVerif.Lemmas.BmocXor3
+import HpxVerif.Lemmas.BmocOr2
 
 /-!
 # C08 — BMOC operators follow the documented three-valued semantics with partial flags
@@ -15,9 +16,8 @@ Proved here for all (pairs of) well-formed operands: `and` (pointwise minimum, r
 (`not3_sem`: absent ↔ full, partial kept; result well formed and in range; every produced cell is full or an unchanged
 partial cell of the operand)**.  **`xor` (`xor3_sem` on cell lists, `xor_bmoc` for the public operator including re-encoding and `pack`: never panics
 on valid operands, result valid, well formed, pointwise the documented table).**
-`or`: the executable model mirrors the code loop by loop and is tied to it by the correspondence check (exhaustive
-one-level universe, sampled two-level universe, random deep trees); its `*_sem` theorem is an open statement and is
-not counted as an obligation until proved.
+**`or` (`or3_sem`, `or_bmoc`: never panics on valid operands — in particular the `unwrap` in `not_in_cell_4_or` that
+finding F1 made fail — result valid, well formed, pointwise maximum).**  All four operators are proved.
 -/
 
 namespace Hpx.C08
@@ -86,5 +86,34 @@ theorem xor_bmoc (A B : BMOC) (hA : A.dmax ≤ 29) (hB : B.dmax ≤ 29)
 theorem xor_table : Tri.xor .abs .full = .full ∧ Tri.xor .part .abs = .part ∧ Tri.xor .full .full = .abs ∧
     Tri.xor .abs .abs = .abs ∧ Tri.xor .part .full = .part ∧ Tri.xor .full .part = .part ∧ Tri.xor .part .part = .part := by
   decide
+
+/-! ## `or` -/
+
+/-- **`or`, three-valued, on cell lists** (before `pack`): for every pair of well-formed in-range operands of depth
+    `≤ 29` the merge loop never panics (the `unwrap` of `not_in_cell_4_or` never fails, the fuel suffices), the result is
+    well formed and in range, and denotes the pointwise maximum -/
+theorem or3_sem (D : Nat) (hD : D ≤ 29) (a b : List Cell) (ha : WF D a) (hb : WF D b)
+    (hra : ∀ c ∈ a, InR c) (hrb : ∀ c ∈ b, InR c) :
+    ∃ l, orCellsUnpacked a b = some l ∧ (WF D l ∧ ∀ c ∈ l, InR c) ∧
+      ∀ x, stOf D l x = Tri.max (stOf D a x) (stOf D b x) := by
+  obtain ⟨l, hl⟩ := orCells_some D hD a b ha hb hra hrb
+  exact ⟨l, hl, Hpx.Bmoc.or_wf D hD a b ha hb hra hrb l hl, fun x => or3_sem_all D hD a b ha hb hra hrb l hl x⟩
+
+/-- **the public operator `BMOC::or`** for operands of possibly different `depth_max` (each valid and well formed w.r.t.
+    its own `depth_max ≤ 29`): never panics, `depth_max = max`, valid strictly increasing entries, well formed, and the
+    state of every cell of the deeper depth is the maximum of the states of its ancestors-or-self in the two operands -/
+theorem or_bmoc (A B : BMOC) (hA : A.dmax ≤ 29) (hB : B.dmax ≤ 29)
+    (gA : (∀ r ∈ A.entries, ValidRaw A.dmax r) ∧ WF A.dmax A.cells)
+    (gB : (∀ r ∈ B.entries, ValidRaw B.dmax r) ∧ WF B.dmax B.cells) :
+    ∃ R, BMOC.or A B = some R ∧ R.dmax = max A.dmax B.dmax ∧ (∀ r ∈ R.entries, ValidRaw (max A.dmax B.dmax) r) ∧
+      WF (max A.dmax B.dmax) R.cells ∧ R.entries.Pairwise (· < ·) ∧
+      ∀ x, stOf (max A.dmax B.dmax) R.cells x =
+        Tri.max (stOf A.dmax A.cells (x / 4 ^ (max A.dmax B.dmax - A.dmax)))
+          (stOf B.dmax B.cells (x / 4 ^ (max A.dmax B.dmax - B.dmax))) :=
+  bmoc_or_general A B hA hB gA gB
+
+/-- the documented table of `or` -/
+theorem or_table : Tri.max .abs .full = .full ∧ Tri.max .part .abs = .part ∧ Tri.max .full .part = .full ∧
+    Tri.max .abs .abs = .abs ∧ Tri.max .part .part = .part ∧ Tri.max .part .full = .full := by decide
 
 end Hpx.C08
